@@ -15,7 +15,9 @@ CONSTANTS MaxSteps,   \* bound on behaviour length for the exhaustive check
           StyleViaC,  \* AddStyle: custom | quick | add
           PageC,      \* page-setting calls
           ReopenC,    \* mem | file
-          RenderViaC, \* doc | legacy
+          SpellC,     \* Reopen: how the producer between save and open spelt the package (subset of SpellClasses)
+          StyleEdC,   \* EditStyle: what is edited (subset of StyleEdits)
+          RenderViaC, \* doc | legacy | file
           RenderImgC, \* none | png | jpeg | gif
           PrepC,      \* Render: is the template document first given placeholder content? (subset of BOOLEAN)
           TkC,        \* text-template shapes
@@ -38,7 +40,8 @@ Ops ==
   \cup {[op |-> o] : o \in OpNames \cap (PlainOps \cup SaveOps)}
   \cup (IF On("AddStyle") THEN {[op |-> "AddStyle", tc |-> t, via |-> v] : t \in TextC, v \in StyleViaC} ELSE {})
   \cup (IF On("PageSet") THEN {[op |-> "PageSet", which |-> w] : w \in PageC} ELSE {})
-  \cup (IF On("Reopen") THEN {[op |-> "Reopen", via |-> v] : v \in ReopenC} ELSE {})
+  \cup (IF On("EditStyle") THEN {[op |-> "EditStyle", tc |-> t, ed |-> e] : t \in TextC, e \in StyleEdC} ELSE {})
+  \cup (IF On("Reopen") THEN {[op |-> "Reopen", via |-> v, sp |-> s] : v \in ReopenC, s \in SpellC} ELSE {})
   \cup (IF On("Render") THEN {[op |-> "Render", tc |-> t, via |-> v, img |-> g, prep |-> p] : t \in TextC, v \in RenderViaC, g \in RenderImgC, p \in PrepC} ELSE {})
   \cup (IF On("RenderText") THEN {[op |-> "RenderText", tk |-> k, tc |-> t] : k \in TkC, t \in TextC} ELSE {})
   \cup (IF On("ConvertMd") THEN {[op |-> "ConvertMd", mk |-> k, tc |-> t, via |-> v] : k \in MkC, t \in TextC, v \in MdViaC} ELSE {})
@@ -77,13 +80,22 @@ Inv_By == \A k \in PartKinds : st.by[k].op \in AllOps \cup {"New"}
 
 Fresh(op) == op.op \in {"RenderText", "ConvertMd"}
 \* parts are never lost by a call on the same document; a failing call changes nothing but the premise
-Act_Grow == [][(~Fresh(last') /\ Ret(st, last') = "ok") => \A k \in PartKinds : NOf(st'.pkg, k) >= NOf(st.pkg, k)]_vars
+Lean(op) == op.op = "Reopen" /\ op.sp = "min"
+Act_Grow == [][(~Fresh(last') /\ ~Lean(last') /\ Ret(st, last') = "ok") => \A k \in PartKinds : NOf(st'.pkg, k) >= NOf(st.pkg, k)]_vars
 Act_Fail == [][Ret(st, last') # "ok" => (st'.pkg = st.pkg /\ st'.by = st.by /\ st'.taint)]_vars
 \* saving and reading change nothing at all
 Act_Save == [][last'.op \in SaveOps \cup {"GetDocumentProperties"} => (st'.pkg = st.pkg /\ st'.by = st.by /\ st'.hdr = st.hdr /\ st'.ftr = st.ftr)]_vars
 \* frame: the recorded writer of a part kind changes only by a call that writes that kind; a new part belongs to the call
 Act_Frame == [][\A k \in PartKinds : st'.by[k] # st.by[k] => (k \in Writes(st, last') /\ st'.by[k] = Writer(last'))]_vars
 Act_New   == [][\A k \in PartKinds : (NOf(st'.pkg, k) > NOf(st.pkg, k) /\ ~Fresh(last')) => st'.by[k] = Writer(last')]_vars
+\* reading a package back, however its producer spelt it, keeps every part, the one main document and yields an opened document;
+\* editing a style in place changes no part list; the origin changes only by the calls that replace the document object
+Act_Reopen == [][last'.op = "Reopen" => (st'.org = "opened" /\ st'.pkg.odoc = st.pkg.odoc /\ st'.hdr = st.hdr /\ st'.ftr = st.ftr
+                                        /\ (last'.sp \notin {"extra", "min"} => st'.pkg = st.pkg)
+                                        /\ \A k \in PartKinds \ {"core", "app"} : NOf(st'.pkg, k) >= NOf(st.pkg, k))]_vars
+Act_Style  == [][last'.op = "EditStyle" => (st'.pkg = st.pkg /\ st'.by["styles"] = Writer(last'))]_vars
+Act_Org    == [][st'.org # st.org => last'.op \in {"Reopen", "Render", "RenderText", "ConvertMd"}]_vars
+Inv_Org    == st.org \in Origins /\ (st.org = "new" => "other" \notin KindsIn(st.pkg))
 \* every part a call adds is well-formed (if XML) and has a content type
 Act_CT    == [][\A i \in 1..Len(st'.pkg.parts) : i > Len(st.pkg.parts) =>
                    (st'.pkg.parts[i].ct # "none" /\ (st'.pkg.parts[i].xml => st'.pkg.parts[i].wf = "ok"))]_vars
